@@ -2,6 +2,10 @@
 
 ORACLE = ("suite_oracle", {"n": {"quick": 240, "thorough": 4000}})
 
+ORACLE_RELOAD = ("suite_oracle", {"n": {"quick": 200, "thorough": 3000}, "modes": ("reload", "reload", "plain", "reload")})
+ORACLE_CRASH = ("suite_oracle", {"n": {"quick": 120, "thorough": 1500}, "modes": ("crash",)})
+ORACLE_CRASH_ALL = ("suite_oracle:run_crash_all", {"n": {"quick": 36, "thorough": 400}})
+
 NOT_CLAIMED = {}
 
 CORE_NOTE = ("Trusted: Lean kernel; the hand-written generic oracle model (Ktm/Core.lean: create/update/endT over an arbitrary "
@@ -29,4 +33,24 @@ PROPS = {
                           "retry starting from empty reports), retries served first with the same values, final trials never reissued, "
                           "and abort <=> the end order contains K consecutive FAILED (scanning loop proved equivalent to the list statement).",
             "level_note": CORE_NOTE, "assumptions": []},
+    "C07": {"suites": [ORACLE_RELOAD],
+            "level_text": "Theorems (Ktm/Props/C07.lean): trial files and oracle file stay consistent with memory along every run of "
+                          "complete operations (any algorithm, schedule, outcomes); reload of a saved disk = the state with its running "
+                          "trials queued again, all other trials, orders, run counts and the algorithm state restored exactly; the "
+                          "continuation of ANY request list is then identical; the reloaded state satisfies the lifecycle invariant.",
+            "level_note": CORE_NOTE + " The algorithm state is persisted as a whole in the model; that each real oracle's get_state/set_state "
+                          "really persists all of its progress (Hyperband brackets, grid position, seed state, tried set) is checked by the "
+                          "suite: full state comparison after reload and a twin run (uninterrupted oracle with its running trials queued by "
+                          "hand) whose every later answer must equal the reloaded oracle's (random, grid, Hyperband; Bayesian: validity only).",
+            "assumptions": ["'saved' = explicit save() at an operation boundary; the files left by the operations themselves are C08"]},
+    "C08": {"suites": [ORACLE_CRASH_ALL, ORACLE_CRASH],
+            "level_text": "Theorems (Ktm/Props/C08.lean): for EVERY scenario and EVERY crash index k the disk is consistent (DiskOK) with the "
+                          "state before or after the interrupted operation; hence restart succeeds, satisfies the invariant (unique ids), keeps "
+                          "every durably ended trial untouched and unqueued, queues every RUNNING trial, keeps the trial count, and the resumed "
+                          "run respects the budget. The suite enumerates every crash index of every generated scenario on the real code.",
+            "level_note": CORE_NOTE + " Writes are atomic whole-file writes (as the property stipulates); 'durably recorded' = listed in the on-disk "
+                          "end_order. A second crash between the reload and the first later oracle-file write is exercised by the suite "
+                          "(thorough tier: second crash after every first crash) but not covered by a theorem (second_crash_partial). The "
+                          "tuner-level restart (tuner0.json) is part of the `search` suite (C19).",
+            "assumptions": ["atomic whole-file writes", "durably recorded = listed in the on-disk end_order"]},
 }
